@@ -45,7 +45,18 @@ RULE = ("Boxes are built by construction from (magnitude 1e-8..1e8, offset class
         "points); each case calls the batch (array and nested list) AND every single point of it. "
         "single_batch: options independently spelled as number / NumPy scalar (float64, float32, int64, int16 where exact) / "
         "list / tuple / array / list or tuple of NumPy scalars, d in 1..4, 1..5 points of all point classes, every row compared; "
-        "non-trivial = >= 2 points and a spelling other than number / list / array.")
+        "non-trivial = >= 2 points and a spelling other than number / list / array. "
+        "handed_out: a case of any other sub-check (grid_flat x4, prep_opts x3, cdf x2, roundtrip x2, points, scale, forms, "
+        "repeat_calls, single_batch, index_dtypes, reject) re-run as a HISTORY: every library call (grid_flat, grid_prep_opt(s), "
+        "ind_to_poi, poi_to_ind, poi_scale, cdf_getter and the function it returns) is made twice - first on deep copies of the "
+        "arguments, then every returned array is overwritten in place (fill nan / -7, zero, += 1, shuffle, reverse, or a mix), then "
+        "on the original arguments - and the sub-check judges the SECOND result; handed_out_small: every shape of grid_flat_small "
+        "x 5 overwrites and every case of prep_opts; non-trivial = the inner rule and >= 1 array really changed. "
+        "grid_flat_history: d in 1..4, n_k in 1..6 (thorough 1..9), 2..4 calls for one shape spelled list / tuple / int64 array / "
+        "int32 array (d == 1: also the scalar spellings), each result overwritten (5 ways) or kept, calls for another shape "
+        "(reversed / one more dimension / n_0 + 1) in between, then the round trip over grid_flat(n) on a generated box and "
+        "func_gets_full (before / after / both; m as list / array / None) on <= 200 nodes; non-trivial = d >= 2, min n >= 2, "
+        ">= 1 array really changed.")
 TOLERANCES = ("round trip: exact; node in box / end node: 8 (uni), 16 (cheb) ulp(M); node position vs independent float "
               "reference: 16 / 32 ulp(M); arbitrary point: exists x' within 2 ulp(M) with |I - t(x')| <= 0.5 + 4 eps (n-1) "
               "(uni, Fraction) / 0.5 + 8 eps (n-1) with 8 eps slack on the arccos argument (cheb); poi_scale: 4 eps |r| "
@@ -56,7 +67,10 @@ TOLERANCES = ("round trip: exact; node in box / end node: 8 (uni), 16 (cheb) ulp
               "dtype spellings vs the int64 / Python-int spelling: identical bits (uni nodes, all indices), 4 ulp(M) (cheb nodes), "
               "plus the 16 / 32 ulp(M) node reference in Python int / float arithmetic; index dtype of poi_to_ind: integer "
               "with max >= n - 1; single_batch: every row of a batch vs its single-point call: identical bits (uni, poi_scale), "
-              "4 ulp(M) (cheb nodes), equal or both admissible at a tie (cheb indices); spelled options vs plain lists: identical bits")
+              "4 ulp(M) (cheb nodes), equal or both admissible at a tie (cheb indices); spelled options vs plain lists: identical bits; "
+              "handed_out / grid_flat_history: second call vs first call before the overwrite: identical bytes (same routine, equal "
+              "arguments of the same shapes and dtypes, same process), np.shares_memory is False; func_gets_full vs func_get_full on "
+              "the nodes of the reference flat grid: 1e-9 (1 + max|Z|) (the two are the same computation; a wrong order is O(1))")
 ASSUMPTIONS = [
     "resolution precondition (b-a)/(n-1) >= 2**12 ulp(max(|a|,|b|)); for kind='cheb' additionally "
     "(b-a)/2*(1-cos(pi/(n-1))) >= 2**12 ulp(max(|a|,|b|)) (smallest Chebyshev cell); built in by widening the box",
@@ -75,6 +89,13 @@ ASSUMPTIONS = [
     "NumPy integer scalars as n are asserted for ind_to_poi only (poi_to_ind raises IndexError on them for a single point or "
     "d >= 2 - observed, an accepted call must answer correctly); for n >= 2**30 on the Chebyshev grid the smallest cell is "
     "below the resolution precondition, so only the node oracles (no round trip) are asserted there",
+    "handed_out / grid_flat_history: an array returned by a routine of the module is the caller's own: overwriting it in place "
+    "must not change what any later call returns, and no later call may change it.  Exempt: a result that overlaps an ARGUMENT of "
+    "its own call (grid_prep_opt hands back an ndarray argument of the right dtype unchanged) is not compared with results of "
+    "earlier calls; the two calls of one history get distinct argument objects, so their results must not overlap.  Read-only "
+    "results would be skipped (none on the unmodified tree).  grid_flat is also given a tuple (what func_gets_full passes: A.shape) "
+    "and an int32 array; func_gets_full (teneva/func_full.py, the in-library consumer of grid_flat) is compared with func_get_full "
+    "on ind_to_poi(reference flat grid), reshaped in Fortran order as its body does",
 ]
 
 EPS = float(np.finfo(float).eps)
@@ -614,28 +635,45 @@ def flat_reference(n):
     return ref
 
 
-def prop_grid_flat(case, ctx):
-    n, form = case["n"], case["form"]
-    d = len(n)
+def flat_spelling(n, form):
+    """The shape n (list of Python ints) in the spelling `form` and the reference enumeration of that call."""
     ref = flat_reference(n)
     if form in SCALAR_FORMS:
-        if d != 1:
+        if len(n) != 1:
             raise AssertionError("scalar grid_flat needs d == 1")
         arg = {"int": int, "float": float, "np.int64": np.int64, "np.float64": np.float64, "np.int32": np.int32,
                "np.float32": np.float32}[form](n[0])
-        ref = ref[:, 0]
-    else:
-        arg = np.array(n, dtype=int) if form == "array" else list(n)
-    G = ctx.lib(teneva.grid_flat, arg)
-    ctx.check(is_int_array(G), "grid_flat: result is not an integer array", got=repr(type(G)))
-    ctx.check(G.shape == ref.shape, "grid_flat: wrong shape", got=G.shape, want=ref.shape, n=n)
+        return arg, ref[:, 0]
+    if form == "array":
+        return np.array(n, dtype=int), ref
+    if form == "array32":
+        return np.array(n, dtype=np.int32), ref
+    if form == "tuple":                                     # what func_gets_full passes (A.shape)
+        return tuple(int(k) for k in n), ref
+    if form == "list":
+        return [int(k) for k in n], ref
+    raise AssertionError("unknown grid_flat spelling " + form)
+
+
+def check_flat(ctx, G, ref, n, **kw):
+    """The flat-grid oracle: an integer array of the reference shape listing every multi-index once, first index fastest."""
+    ctx.check(is_int_array(G), "grid_flat: result is not an integer array", got=repr(type(G)), **kw)
+    ctx.check(G.shape == ref.shape, "grid_flat: wrong shape", got=G.shape, want=ref.shape, n=n, **kw)
     if not np.array_equal(G, ref):
         if G.ndim == 2 and G.shape[0] > 0:
-            ctx.check(bool(np.all(G >= 0)) and bool(np.all(G < np.array(n)[None, :])), "grid_flat: index outside the grid", n=n)
-            ctx.check(len({tuple(row) for row in G.tolist()}) == G.shape[0], "grid_flat: a multi-index is listed twice", n=n)
+            ctx.check(bool(np.all(G >= 0)) and bool(np.all(G < np.array(n)[None, :])), "grid_flat: index outside the grid", n=n, **kw)
+            ctx.check(len({tuple(row) for row in G.tolist()}) == G.shape[0], "grid_flat: a multi-index is listed twice", n=n, **kw)
         j = int(np.nonzero(np.any(np.atleast_2d(G.T).T != np.atleast_2d(ref.T).T, axis=1))[0][0])
         ctx.check(False, "grid_flat: not the enumeration with the first index running fastest", n=n, position=j,
-                  got=G[j], want=ref[j])
+                  got=G[j], want=ref[j], **kw)
+
+
+def prop_grid_flat(case, ctx):
+    n, form = case["n"], case["form"]
+    d = len(n)
+    arg, ref = flat_spelling(n, form)
+    G = ctx.lib(teneva.grid_flat, arg)
+    check_flat(ctx, G, ref, n)
     ctx.label("form:" + form, "d:%d" % d)
     ctx.nontrivial(d >= 2 and min(n) >= 2)
 
@@ -1310,6 +1348,305 @@ def prop_dtypes(case, ctx):
     ctx.nontrivial(bool(wraps or nwraps))
 
 
+# ------------------------------------------------------------------------------------------- results belong to the caller
+#
+# Class "a routine hands out an object it keeps" (a memoised result, a module-level scratch buffer, a view of internal state):
+# a single call cannot show it, a HISTORY does - call, overwrite every returned array in place (what a caller may do with HIS
+# result: rng.shuffle(I) for a train / test split, I += 1 for 1-based export, X[:] = nan to mark it consumed), call again with
+# equal but freshly built arguments.  The second call is a call like any other, so its result has to satisfy every oracle of
+# this module; the maps are deterministic functions of their arguments, so it has to be bit-identical to the first result as it
+# was before the overwrite; and two calls on different argument objects have nothing to share, so the two results must not
+# overlap in memory.  (grid_prep_opt may hand back its ARGUMENT unchanged - np.asanyarray of an ndarray of the right dtype;
+# that is sharing between an argument and the result of the same call, and is exempt: the first call gets deep copies of
+# the arguments, and a result that overlaps one of its own arguments is not compared with results of earlier calls.)
+
+CLOBBER = ["fill", "zero", "incr", "shuffle", "reverse"]
+
+
+def result_arrays(res):
+    """The writable-in-principle arrays of a result (an array, or a tuple of arrays / None)."""
+    if isinstance(res, np.ndarray):
+        return [res] if res.ndim >= 1 and res.size > 0 and res.dtype.kind in "iuf" else []
+    if isinstance(res, (tuple, list)):
+        return [x for r in res for x in result_arrays(r)]
+    return []
+
+
+def arg_arrays(args):
+    if isinstance(args, np.ndarray):
+        return [args]
+    if isinstance(args, (tuple, list)):
+        return [x for r in args for x in arg_arrays(r)]
+    if isinstance(args, dict):
+        return [x for r in args.values() for x in arg_arrays(r)]
+    return []
+
+
+def same_bytes(x, y):
+    return x.dtype == y.dtype and x.shape == y.shape and x.tobytes() == y.tobytes()
+
+
+def clobber(arr, mode, rng):
+    """Overwrite arr IN PLACE the way a caller may treat an array he was handed; True if its content changed."""
+    if not arr.flags.writeable:
+        return False
+    before = arr.copy()
+    isf = arr.dtype.kind == "f"
+    if mode == "mixed":
+        mode = CLOBBER[int(rng.integers(len(CLOBBER)))]
+    if mode == "shuffle":
+        rng.shuffle(arr)                                    # rows of a batch / entries of a vector
+    elif mode == "reverse":
+        arr[...] = before[::-1]
+    elif mode == "zero":
+        arr[...] = 0
+    elif mode == "incr":
+        arr += 1
+    elif mode == "fill":
+        arr[...] = np.nan if isf else (-7 if arr.dtype.kind == "i" else int(np.iinfo(arr.dtype).max) // 3)
+    else:
+        raise AssertionError("unknown overwrite " + mode)
+    if arr.tobytes() == before.tobytes():                   # one row, a palindrome, all zeros: make it different anyway
+        arr[...] = (before * -3.0 + 1.5) if isf else (before + 1)
+    return arr.tobytes() != before.tobytes()
+
+
+class HandedOut:
+    """Proxy of the per-case context that turns every library call made through ctx.lib into the history described above and
+    hands the SECOND result to the property function (so all its oracles are applied to it).  It also keeps every array it
+    handed on and checks at the end that no later library call changed it, and that results of different calls do not overlap."""
+
+    def __init__(self, ctx, mode, seed):
+        self._ctx = ctx
+        self._mode = mode
+        self._rng = np.random.default_rng(int(seed))
+        self._held = []                                     # (array handed to the property function, its copy, routine)
+        self._dead = []                                     # overwritten first results, kept alive (no address reuse)
+        self._nt = False
+        self.changed = 0
+        self.names = set()
+
+    def __getattr__(self, name):
+        return getattr(self._ctx, name)
+
+    def nontrivial(self, flag=True):
+        self._nt = self._nt or bool(flag)
+
+    def lib(self, fn, *a, **k):
+        import copy
+        ctx = self._ctx
+        name = getattr(fn, "__name__", repr(fn))
+        first = ctx.lib(fn, *copy.deepcopy(a), **copy.deepcopy(k))
+        mine = result_arrays(first)
+        was = [x.copy() for x in mine]
+        done = [clobber(x, self._mode, self._rng) for x in mine]
+        second = ctx.lib(fn, *a, **k)
+        again = result_arrays(second)
+        ctx.check(len(again) == len(mine), name + ": called again with equal arguments it returns a result of a different structure",
+                  first=repr(type(first)), second=repr(type(second)))
+        for j, (x, x0, y) in enumerate(zip(mine, was, again)):
+            ctx.check(same_bytes(y, x0),
+                      name + ": called again with equal, freshly built arguments after the caller overwrote the array it was "
+                      "handed by the first call, it does not return the first result as it was before the overwrite "
+                      "(results are not independent objects)",
+                      overwrite=self._mode, same_object=y is x, shares_memory=bool(np.shares_memory(x, y)), part=j,
+                      first_before=x0, second=y)
+            ctx.check(not np.shares_memory(x, y),
+                      name + ": the arrays returned by two calls on freshly built arguments share memory", part=j)
+        own = arg_arrays([a, k])
+        for j, y in enumerate(again):
+            if not any(np.shares_memory(y, v) for v in own):
+                for h, _, hname in self._held:
+                    ctx.check(not np.shares_memory(y, h), name + ": the returned array shares memory with an array returned by an "
+                              "earlier call (" + hname + ")", part=j)
+        for y in again:
+            self._held.append((y, y.copy(), name))
+        self._dead.extend(mine)
+        if mine:
+            self.names.add(name)
+        self.changed += sum(done)
+        return second
+
+    def finish(self):
+        ctx = self._ctx
+        for h, h0, name in self._held:
+            ctx.check(same_bytes(h, h0), name + ": an array it returned was changed by a later library call (the caller's result "
+                      "is not his own)", before=h0, now=h)
+        ctx.label("overwrite:" + self._mode, *("handed_out:" + n for n in sorted(self.names)))
+        ctx.nontrivial(self._nt and self.changed > 0)
+
+
+def opt_form_strategy(is_n):
+    return st.sampled_from(opt_forms(is_n))
+
+
+@st.composite
+def prep_sampled(draw, tier):
+    return {"a": draw(opt_form_strategy(False)), "b": draw(opt_form_strategy(False)), "n": draw(opt_form_strategy(True)),
+            "d": draw(st.sampled_from([None, 0, 1, 2, 3])), "reps": draw(st.sampled_from([None, 1, 3]))}
+
+
+@st.composite
+def reject_sampled(draw, tier):
+    fn = draw(st.sampled_from(["ind_to_poi", "poi_to_ind", "poi_scale"]))
+    kind = draw(st.sampled_from(["uni", "cheb", "custom"] if fn == "poi_scale" else ["uni", "cheb"]))
+    d = draw(st.integers(1, 4))
+    which = draw(st.sampled_from(["a", "b", "ab"] if fn == "poi_scale" else ["a", "b", "n", "ab", "abn"]))
+    L = draw(st.sampled_from([x for x in (1, 2, 3, 4, 6, 8) if x != d]))
+    return {"fn": fn, "kind": kind, "d": d, "which": which, "L": L, "cont": draw(st.sampled_from(SEQ_SPELL)),
+            "others": draw(st.sampled_from(["scalar", "seq"])), "batch": draw(st.integers(1, 4))}
+
+
+HANDOUT = {
+    "grid_flat": (prop_grid_flat, grid_flat_cases),
+    "prep_opts": (prop_prep, prep_sampled),
+    "roundtrip": (prop_roundtrip, roundtrip_cases),
+    "points": (prop_points, point_cases),
+    "scale": (prop_scale, scale_cases),
+    "forms": (prop_forms, form_cases),
+    "repeat_calls": (prop_repeat, form_cases),
+    "single_batch": (prop_stack, stack_cases),
+    "index_dtypes": (prop_dtypes, dtype_cases),
+    "cdf": (prop_cdf, cdf_cases),
+    "reject": (prop_reject, reject_sampled),
+}
+HANDOUT_WEIGHTED = (["grid_flat"] * 4 + ["prep_opts"] * 3 + ["cdf"] * 2 + ["roundtrip"] * 2 + ["points", "scale", "forms", "repeat_calls",
+                    "single_batch", "index_dtypes", "reject"])
+
+
+@st.composite
+def handout_cases(draw, tier):
+    which = draw(st.sampled_from(HANDOUT_WEIGHTED))
+    return {"which": which, "case": draw(HANDOUT[which][1](tier)), "clobber": draw(st.sampled_from(CLOBBER + ["mixed"])),
+            "cseed": draw(st.integers(0, 2 ** 32 - 1))}
+
+
+def prop_handout(case, ctx):
+    """Every sub-check of the module re-run as a history: each library call is made twice, the arrays returned by the first
+    call are overwritten in place in between; the property function sees (and judges) the second result."""
+    h = HandedOut(ctx, case["clobber"], case["cseed"])
+    ctx.label("history_of:" + case["which"])
+    HANDOUT[case["which"]][0](case["case"], h)
+    h.finish()
+
+
+def handout_small(tier, shard, nshards):
+    """Exhaustive part: every small shape of grid_flat_small x every overwrite; every accepted option preparation."""
+    j = 0
+    for c in grid_flat_small(tier, 0, 1):
+        for mode in CLOBBER:
+            if j % nshards == shard:
+                yield {"which": "grid_flat", "case": c, "clobber": mode, "cseed": j}
+            j += 1
+    for c in prep_cases(tier, 0, 1):
+        if j % nshards == shard:
+            yield {"which": "prep_opts", "case": c, "clobber": CLOBBER[j % len(CLOBBER)], "cseed": j}
+        j += 1
+
+
+# grid_flat: longer histories over one shape in all its spellings, other shapes in between, and the consumers of the flat grid
+
+FLAT_FORMS = ["list", "array", "array32", "tuple"]
+
+
+@st.composite
+def flat_history_cases(draw, tier):
+    cap = 600 if tier == "quick" else 4096
+    d = draw(st.integers(1, 4))
+    n = [draw(st.integers(1, 6 if tier == "quick" else 9)) for _ in range(d)]
+    while int(np.prod(n, dtype=object)) > cap:
+        n[int(np.argmax(n))] -= 1
+    forms = FLAT_FORMS + (SCALAR_FORMS if d == 1 else [])
+    steps = [{"form": draw(st.sampled_from(forms)), "clobber": draw(st.sampled_from(CLOBBER + ["keep"])),
+              "other": draw(st.sampled_from(["no", "no", "reversed", "longer", "bigger"]))}
+             for _ in range(draw(st.integers(2, 4)))]
+    kind = draw(st.sampled_from(["uni", "cheb"]))
+    a, b = [], []
+    for k in range(d):
+        _, ak, bk = draw(raw_boxes())
+        ak, bk = widen(ak, bk, max(n[k], 2), kind)
+        a.append(ak), b.append(bk)
+    small = min(n) >= 2 and int(np.prod(n)) <= 200
+    return {"n": n, "steps": steps, "kind": kind, "a": a, "b": b, "cseed": draw(st.integers(0, 2 ** 32 - 1)),
+            "fgf": draw(st.sampled_from(["no", "before", "after", "both"])) if small else "no",
+            "mform": draw(st.sampled_from(["list", "array", "none"])), "nA": [draw(st.integers(2, 3)) for _ in range(d)]}
+
+
+def other_shape(n, how):
+    if how == "reversed":
+        return list(n[::-1])
+    if how == "longer":
+        return list(n) + [2]
+    return [n[0] + 1] + list(n[1:])
+
+
+def prop_flat_history(case, ctx):
+    """grid_flat asked for one shape again and again (list / tuple / int64 / int32 array / scalar spellings), the caller
+    overwriting or keeping what he got, other shapes in between; then the consumers of the flat grid: the index round trip over
+    the whole grid and func_gets_full (which asks grid_flat itself)."""
+    n, kind, a, b = case["n"], case["kind"], case["a"], case["b"]
+    d = len(n)
+    rng = np.random.default_rng(case["cseed"])
+    live = []                                               # (array, copy or None when overwritten, description)
+    changed = 0
+
+    def ask(shape, form, mode, step):
+        nonlocal changed
+        arg, ref = flat_spelling(shape, form)
+        G = ctx.lib(teneva.grid_flat, arg)
+        check_flat(ctx, G, ref, shape, call=step, spelling=form)
+        for H, _, what in live:
+            ctx.check(not np.shares_memory(G, H), "grid_flat: the returned array shares memory with the array returned by an "
+                      "earlier call", call=step, earlier=what, n=shape)
+        if mode == "keep" or G.size == 0:
+            live.append((G, G.copy(), "call %d (%s), kept" % (step, form)))
+        else:
+            changed += bool(clobber(G, mode, rng))
+            live.append((G, None, "call %d (%s), overwritten: %s" % (step, form, mode)))
+
+    A = Zref = None
+    if case["fgf"] != "no":
+        shapeA = n if case["mform"] == "none" else case["nA"]
+        A = rng.standard_normal(shapeA)
+        m = None if case["mform"] == "none" else (np.array(n, dtype=int) if case["mform"] == "array" else list(n))
+        Xref = ctx.lib(teneva.ind_to_poi, flat_reference(n), -1., 1., list(n), "cheb")
+        Zref = ctx.lib(teneva.func_get_full, Xref, A, -1., 1.).reshape(n, order="F")
+
+        def consumer(when):
+            Z = ctx.lib(teneva.func_gets_full, A.copy(), -1., 1., m)
+            ctx.check(isinstance(Z, np.ndarray) and Z.shape == tuple(n), "func_gets_full: result is not an array of the shape of the grid",
+                      got=repr(getattr(Z, "shape", None)), n=n)
+            tol = 1e-9 * (1.0 + float(np.max(np.abs(Zref))))
+            ctx.check(bool(np.all(np.abs(Z - Zref) <= tol)), "func_gets_full: not the interpolant on the nodes of the full grid in "
+                      "first-index-fastest order (" + when + " the caller overwrote an array he got from grid_flat)", n=n,
+                      err=float(np.max(np.abs(Z - Zref))), tol=tol)
+        if case["fgf"] in ("before", "both"):
+            consumer("before")
+
+    for s, st_ in enumerate(case["steps"]):
+        ask(n, st_["form"], st_["clobber"], s)
+        if st_["other"] != "no":
+            ask(other_shape(n, st_["other"]), "list", st_["clobber"], s)
+    if min(n) >= 2:
+        for k in range(d):
+            require_pre(a[k], b[k], n[k], kind)
+        arg, ref = flat_spelling(n, "list")
+        I = ctx.lib(teneva.grid_flat, arg)
+        check_flat(ctx, I, ref, n, call="round trip")
+        X = ctx.lib(teneva.ind_to_poi, I, list(a), list(b), list(n), kind)
+        J = ctx.lib(teneva.poi_to_ind, X, list(a), list(b), list(n), kind)
+        ctx.check(isinstance(J, np.ndarray) and J.shape == ref.shape and np.array_equal(J, ref),
+                  "poi_to_ind(ind_to_poi(grid_flat(n))) is not the flat grid", n=n, kind=kind)
+        ctx.inner(int(ref.shape[0]))
+    if A is not None and case["fgf"] in ("after", "both"):
+        consumer("after")
+    for H, H0, what in live:
+        if H0 is not None:
+            ctx.check(same_bytes(H, H0), "grid_flat: an array it returned (and the caller kept) was changed by a later call", which=what, n=n)
+    ctx.label("d:%d" % d, "fgf:" + case["fgf"], *("spelling:" + s["form"] for s in case["steps"]),
+              *("overwrite:" + s["clobber"] for s in case["steps"]))
+    ctx.nontrivial(d >= 2 and min(n) >= 2 and changed > 0)
+
 
 SUBCHECKS = [
     Sub("index_dtypes", prop_dtypes, strategy=dtype_cases, quick=100, thorough=1200),
@@ -1325,4 +1662,7 @@ SUBCHECKS = [
     Sub("reject", prop_reject, enumerate=reject_cases, exhaustive=True),
     Sub("single_batch", prop_stack, strategy=stack_cases, quick=100, thorough=1500),
     Sub("cdf", prop_cdf, strategy=cdf_cases, quick=150, thorough=2500),
+    Sub("handed_out", prop_handout, strategy=handout_cases, quick=160, thorough=2500),
+    Sub("handed_out_small", prop_handout, enumerate=handout_small, exhaustive=True),
+    Sub("grid_flat_history", prop_flat_history, strategy=flat_history_cases, quick=60, thorough=800),
 ]
